@@ -129,3 +129,111 @@ def impl_check(ref_text, l10n_text, idx, android, use_reference, model_docs):
                 "results": [[r[0], list(r[1]) if isinstance(r[1], tuple) else int(r[1]), r[2], r[3]] for r in results],
                 "verdicts": [xml_verdict(d) for d in model_docs]})
     return out
+
+
+# ---------------------------------------------------------------------------------------------------------------
+# round 4: ONE checker instance over the entities of a file, as ContentComparer.compare / L10nLinter.lint_file do
+def _l10n_entities(text):
+    p = type(P.getParser("foo.dtd"))()
+    p.readUnicode(text)
+    return p.parse()
+
+
+def _pairs(ref_text, l10n_text, mode):
+    """(reference KeyedTuple, [(refEnt, l10nEnt)]) in the order the real callers produce them.
+    compare: `for key in l10n keys` (duplicates included): checker.check(ref_entities[key], l10n_entities[key]);
+    lint:    `for current_entity in current`: checker.check(current_entity, current_entity), reference = current."""
+    if mode == "lint":
+        cur = _l10n_entities(l10n_text)
+        return cur, [(e, e) for e in cur if isinstance(e, Entity) and not isinstance(e, Junk)]
+    refl = dtd_entities(ref_text)
+    l10n = _l10n_entities(l10n_text)
+    pairs = []
+    for e in l10n:
+        if isinstance(e, Junk) or not isinstance(e, Entity):
+            continue
+        if mode == "compare":
+            # both sides by key, as compare() does (the LAST entity of a duplicated key on either side)
+            if e.key in refl and not isinstance(refl[e.key], Junk) and not isinstance(l10n[e.key], Junk):
+                pairs.append((refl[e.key], l10n[e.key]))
+        else:   # "walk": every localized entity in file order against the reference entity of its key
+            if e.key in refl and not isinstance(refl[e.key], Junk):
+                pairs.append((refl[e.key], e))
+    return refl, pairs
+
+
+def _ent(e):
+    return {"key": e.key, "all": e.all, "val": e.raw_val}
+
+
+def seq_inputs(ref_text, l10n_text, mode):
+    refl, pairs = _pairs(ref_text, l10n_text, mode)
+    return {"refvals": [e.raw_val for e in refl.values()], "pairs": [[_ent(r), _ent(l)] for r, l in pairs]}
+
+
+def _state(checker):
+    from compare_locales.checks.dtd import DTDChecker
+    ke = checker._DTDChecker__known_entities
+    known = "X" if ke is None else " ".join([str(len(ke))] + [enc(s) for s in sorted(ke)])
+    return "known=%s text=%s css=%d" % (known, enc(DTDChecker.texthandler.textcontent), 1 if hasattr(checker, "_css_spec") else 0)
+
+
+def _run_check(checker, r, l):
+    log, results, exc, where = [], [], None, []
+    sax.make_parser = lambda *a, **k: _Rec(_real_make_parser(*a, **k), log)
+    try:
+        try:
+            for res in checker.check(r, l):
+                results.append(res)
+                # what compare() / lint do with every result: the position inside the file (drives value_position)
+                try:
+                    where.append(list(l.position(res[1]) if isinstance(res[1], EntityPos) else l.value_position(res[1])))
+                except Exception as e:   # noqa
+                    where.append(type(e).__name__)
+        except Exception as e:      # noqa: classify every failure
+            exc = type(e).__name__
+    finally:
+        sax.make_parser = _real_make_parser
+    canon = " | ".join(["res"] + [show_result(x) for x in results] + (["!" + exc] if exc else []))
+    return {"canon": canon, "docs": [d.hex() for d in log], "exc": exc, "where": where,
+            "results": [[x[0], list(x[1]) if isinstance(x[1], tuple) else int(x[1]), x[2], x[3]] for x in results]}
+
+
+def seq_check(ref_text, l10n_text, mode, android, use_reference, model_docs):
+    """one checker for the whole file (sequence), then a FRESH checker per pair; the state of the object after every step"""
+    from compare_locales.checks.dtd import DTDChecker
+    refl, pairs = _pairs(ref_text, l10n_text, mode)
+    extra = ["android-dtd"] if android else None
+    text0 = DTDChecker.texthandler.textcontent
+    checker = getChecker(DTD_FILE, extra_tests=extra)
+    if use_reference and checker.needs_reference:
+        checker.set_reference(refl)
+    steps = []
+    for r, l in pairs:
+        try:
+            r.equals(l)          # compare() does this first (DTDEntityMixin.val)
+        except Exception:        # noqa
+            pass
+        s = _run_check(checker, r, l)
+        s["state"] = _state(checker)
+        s.update({"rval": r.raw_val, "lval": l.raw_val, "lkey": l.key, "rkey": r.key})
+        steps.append(s)
+    for (r, l), s in zip(pairs, steps):
+        fresh = getChecker(DTD_FILE, extra_tests=extra)
+        if use_reference and fresh.needs_reference:
+            fresh.set_reference(refl)
+        f = _run_check(fresh, r, l)
+        s["fresh"] = f["canon"]
+        s["fresh_results"] = f["results"]
+    return {"text0": text0, "steps": steps, "refvals": [e.raw_val for e in refl.values()],
+            "verdicts": [xml_verdict(d) for d in model_docs]}
+
+
+def uescape(val):
+    """DTDChecker.unicode_escape(val) alone: "fine" or "error <pos> <reason>" (args[2], args[4] of the re-raised error)"""
+    checker = getChecker(DTD_FILE, extra_tests=["android-dtd"])
+    try:
+        checker.unicode_escape(val)
+    except UnicodeDecodeError as e:
+        return "error %d %s" % (e.args[2], enc(e.args[4]))
+    return "fine"
